@@ -51,6 +51,11 @@ def get_templates(repo, store, otype, resources=tuple(ALL), **kw):
             from pyvc.pulpmodel import LpModel
             m = LpModel("m", -1)
             r = I.call_method(w.opt, "add_total_human_consumption_to_model", [m, w.variables, k, otype])
+            # the builder creates this month's consumed_* variables itself: name them V_consumed_*(k)
+            w.subst = []
+            for fam in ("consumed_kcals", "consumed_fat", "consumed_protein"):
+                nv = w.variables[fam].get(K)
+                w.subst.append((nv.term, V(fam)(K)))
             return r[0]
         paths, src = lp.month_templates(repo, build, total)
         out["add_total_human_consumption_to_model"] = simp(template(paths))
